@@ -1,6 +1,7 @@
 package authgrants
 
 import (
+	"bytes"
 	"encoding/binary"
 	"errors"
 	"fmt"
@@ -114,6 +115,20 @@ func NewAuthGrantMessage(t msgType, data MessageData) AgMessage {
 
 // WriteTo serializes an authgrant message and implements the io.WriterTo interface
 func (m *AgMessage) WriteTo(w io.Writer) (int64, error) {
+	// Serialize first and write once: a message that cannot be represented (a
+	// command or user name too long for its length byte) must be rejected
+	// without leaving a partial encoding on the stream, which would mis-frame
+	// whatever the caller writes next on the same connection.
+	var buf bytes.Buffer
+	if _, err := m.encode(&buf); err != nil {
+		return 0, err
+	}
+	n, err := w.Write(buf.Bytes())
+	return int64(n), err
+}
+
+// encode serializes the message to w.
+func (m *AgMessage) encode(w io.Writer) (int64, error) {
 	var written int64
 	// write message type
 	n, err := w.Write([]byte{byte(m.MsgType)})
